@@ -142,6 +142,30 @@ def prf_output_cleared(chk):
     chk.floor('prf output rules', n, 4)
 
 
+def hmac_drbg_empty_seed(chk):
+    """SP 800-90A 10.1.2.2 step 3: the second (0x01) round of HMAC_DRBG_Update is skipped when the provided data is *empty*.  The test is
+    on the length: a non-NULL pointer with length 0 is an empty input too (RFC 6979 callers and wrappers pass such pairs)."""
+    R = 'hmac-drbg-empty-seed'
+    src = 'src/rand/hmac_drbg.c'
+    u = build.load_unit(src)
+    F = next((irf.Func(u, f) for f in u['functions'] if f['name'] == 'br_hmac_drbg_update' and f.get('blocks')), None)
+    if F is None:
+        raise AnalysisBroken('br_hmac_drbg_update vanished')
+    SEED, LEN = {'k': 'a', 'v': 1}, {'k': 'a', 'v': 2}
+    cm = [i for i in F.insts.values() if i['op'] == 'icmp' and i['pred'] in ('eq', 'ne') and F.strip_casts(i['ops'][0]) in (SEED, LEN)
+          and (i['ops'][1]['k'] == 'c' or i['ops'][1]['k'] == 'null' or i['ops'][1].get('v') in (0, None))]
+    inst = 'br_hmac_drbg_update: the early exit after the first round tests the seed length against 0'
+    onlen = [i for i in cm if F.strip_casts(i['ops'][0]) == LEN]
+    onptr = [i for i in cm if F.strip_casts(i['ops'][0]) == SEED]
+    if onlen and not onptr:
+        chk.ok(R, inst, F.where(onlen[0]))
+    elif not cm:
+        raise AnalysisBroken('br_hmac_drbg_update: early-exit test not found')
+    else:
+        chk.violation(R, inst, F.where((onptr or cm)[0]), 'the test is on the seed pointer: an empty seed given with a non-NULL pointer runs the second round, every later '
+                      'output differs from SP 800-90A', key=R)
+
+
 def tls10_prf_shape(chk):
     """RFC 2246 5: PRF(secret, label, seed) = P_MD5(S1, ...) XOR P_SHA-1(S2, ...), S1 / S2 = first / last ceil(L/2) bytes of the secret"""
     R = 'tls-prf-call-shape'
@@ -1123,6 +1147,7 @@ def run(tier):
     prf_sites(chk)
     tls10_prf_shape(chk)
     prf_output_cleared(chk)
+    hmac_drbg_empty_seed(chk)
     hmac_ct_window(chk)
     hmac_key_rules(chk)
     md_padding(chk)
